@@ -116,7 +116,8 @@ func NewIPv4Allocator(start, end net.IP) (*IPv4Allocator, error) {
 	if alloc.start > alloc.end {
 		return nil, errors.New("no IPs in the given range to allocate")
 	}
-	alloc.bitmap = bitset.New(uint(alloc.end - alloc.start + 1))
+	// the size is computed as uint: in uint32 the whole IPv4 space (0.0.0.0-255.255.255.255) wraps to 0
+	alloc.bitmap = bitset.New(uint(alloc.end-alloc.start) + 1)
 
 	return &alloc, nil
 }
